@@ -18,6 +18,7 @@ func c01Paths(r *rng, t *tree, n int) []string {
 	ps := []string{
 		"/../games-other/secret", "../games-other/secret", "/../secret", "..", "/..", "../", "/../", "../..", "/../../../../../../etc/passwd",
 		"/a/../../games-other/secret", "/./../games-other", "//..//games-other//secret", "/..\x00/secret", "/\x00", "\x00",
+		"/..\x00/games-other/secret", "/\x00../games-other/secret", "/.\x00./games-other/secret", "/***DVD***/..\x00/games-other", "/..\x00/games-other", "/a/..\x00/..\x00/games-other/secret", // a NUL glued to a dot-dot element: a name to Clean, never a way up
 		"/../games", "/../games/", "/../games/../games-other/secret", "games-other/secret", "/games-other/secret", "",
 		"/", ".", "/.", "./", "//", "/./.", "/../games-other", "../games-other", "/../games-other/", "/../games-other/new",
 		"/../newfile", "/../games-other/newdir",
